@@ -14,6 +14,14 @@ stdin : {"cases": [ {"gk": str, "members": [member, ...], "nmembers": [...], "cl
                    attached (parse_env / parse_args_env / parse_args / help / defaults / dump / refused_attach = first offered
                    to a parent that refuses it for conflicting keys; it then has
                    default_env=True, env_prefix="COMPONENT")
+        variant = null | {"dcls_kind": "dataclass" | "final" | "attrs" | "pydantic"  (what the dataclass-LIKE type of the
+                   dataclass style is: is_dataclass_like accepts @final classes, attrs classes and pydantic models),
+                   "cls_default": "dict" | "ns" | "lazy" (the class style's default= mapping is a dict, a Namespace or a
+                   lazy_instance of the class),
+                   "skip": null | {"mode": "names" | "count", "extra": [[position, leaf member], ...]}}: the class /
+                   dataclass-like types of the signature styles have EXTRA parameters that the declaration skips
+                   (skip={names} or skip={number of leading parameters}); the dotted / inner-parser styles never
+                   declare them
         ty    = "int" | "str" | "bool" | ["list", ty] | ["opt", ty]
         dflt  = {"nd": 1} (no default) | {"v": json value}
         input = {"env": {NAME: text}, "kind": "args", "args": [[opt, value], ...]}   -> parse_args(["opt=value", ...])
@@ -130,6 +138,9 @@ def mk_dataclass(members, name="G"):
     return dataclasses.make_dataclass(name, fl, kw_only=True), subs
 
 
+_COUNTER = [0]
+
+
 def mk_class(members):
     params = [inspect.Parameter("self", inspect.Parameter.POSITIONAL_OR_KEYWORD)]
     for m in members:
@@ -147,7 +158,76 @@ def mk_class(members):
             pass
 
     K.__init__.__signature__ = inspect.Signature(params)
+    # lazy_instance caches its generated subclass by CLASS NAME in the calling module: every class gets its own name
+    _COUNTER[0] += 1
+    K.__name__ = K.__qualname__ = "K%d" % _COUNTER[0]
     return K
+
+
+def mk_final(members):
+    from typing import final
+    return final(mk_class(members))
+
+
+def mk_pydantic(members):
+    import pydantic
+    fl, subs = {}, {}
+    for m in members:
+        if m[0] == "leaf":
+            _, n, t, d, _ = m
+            if d is MISSING:
+                fl[n] = (t, ...)
+            elif isinstance(d, (list, dict)):
+                fl[n] = (t, pydantic.Field(default_factory=lambda d=d: fresh(d)))
+            else:
+                fl[n] = (t, d)
+        else:
+            _, n, sfields, mdef = m
+            sub = dataclasses.make_dataclass("S_" + n, dc_fields(sfields), kw_only=True)
+            subs[n] = sub
+            fl[n] = (sub, pydantic.Field(default_factory=sub)) if mdef else (sub, ...)
+    return pydantic.create_model("G", **fl), subs
+
+
+def mk_attrs(members):
+    import attrs
+    fl, subs = {}, {}
+    for m in members:
+        if m[0] == "leaf":
+            _, n, t, d, _ = m
+            if d is MISSING:
+                fl[n] = attrs.field(type=t)
+            elif isinstance(d, (list, dict)):
+                fl[n] = attrs.field(type=t, factory=lambda d=d: fresh(d))
+            else:
+                fl[n] = attrs.field(type=t, default=d)
+        else:
+            _, n, sfields, mdef = m
+            sub = attrs.make_class("S_" + n, {f[0]: (attrs.field(type=f[1]) if f[2] is MISSING else
+                                                     attrs.field(type=f[1], factory=lambda d=f[2]: fresh(d)))
+                                              for f in sfields}, kw_only=True)
+            subs[n] = sub
+            fl[n] = attrs.field(type=sub, factory=sub) if mdef else attrs.field(type=sub)
+    return attrs.make_class("G", fl, kw_only=True), subs
+
+
+def with_extras(members, skip):
+    """the parameters of the class / dataclass-like type: the declared members plus the EXTRA ones the declaration
+    skips; returns (parameters, skip= argument or None, names of the extras)"""
+    if not skip:
+        return members, None, []
+    extras = [(pos, ("leaf",) + fields_of([f])[0]) for pos, f in skip["extra"]]
+    names = [e[1][1] for e in extras]
+    if skip["mode"] == "count":
+        return [e[1] for e in extras] + list(members), {len(extras)}, names
+    out = list(members)
+    for pos, e in sorted(extras, key=lambda pe: -pe[0]):
+        out.insert(min(pos, len(out)), e)
+    return out, set(names), names
+
+
+def to_ns(d):
+    return Namespace(**{k: to_ns(v) if isinstance(v, dict) else v for k, v in d.items()})
 
 
 def has_overrides(members):
@@ -181,13 +261,29 @@ def override_dict(members, full):
     return out
 
 
-def override_instance(cls, subs, members):
-    """the default= instance of the dataclass style: the overridden values, signature defaults elsewhere"""
+def sample_value(t):
+    origin = getattr(t, "__origin__", None)
+    if t is int:
+        return 3
+    if t is str:
+        return "sk"
+    if t is bool:
+        return True
+    if origin in (list, List):
+        return []
+    return None
+
+
+def override_instance(cls, subs, members, extra_names=()):
+    """the default= instance of the dataclass style: the overridden values, signature defaults elsewhere (a skipped
+    extra parameter without default needs some value)"""
     kw = {}
     for m in members:
         if m[0] == "leaf":
             if m[4] is not MISSING:
                 kw[m[1]] = fresh(m[4])
+            elif m[1] in extra_names and m[3] is MISSING:
+                kw[m[1]] = sample_value(m[2])
         else:
             _, n, sfields, _ = m
             kw[n] = subs[n](**{f[0]: fresh(f[3]) for f in sfields if f[3] is not MISSING})
@@ -229,6 +325,12 @@ def use_standalone(parser, how, key="x"):
                     other.add_argument("--" + key, action=ActionParser(parser=parser))
                 except ValueError:
                     pass
+            elif how == "refused_self":
+                # offered to ITSELF: "Parser cannot be added as a subparser of itself" (ValueError)
+                try:
+                    parser.add_argument("--" + key, action=ActionParser(parser=parser))
+                except ValueError:
+                    pass
             elif how == "parse_env":
                 parser.parse_env({})
             elif how == "parse_args_env":
@@ -245,11 +347,12 @@ def use_standalone(parser, how, key="x"):
         pass
 
 
-def build(style, gk, members, nmembers, cls_full=False, history=None):
+def build(style, gk, members, nmembers, cls_full=False, history=None, variant=None):
     """members: the declared members (signature styles); nmembers: their normal form under the documented
     signature rules (computed by the harness, checked against Model.C07Decl.mnorm by the judge), from which the
     two add_argument styles are declared"""
     p = base()
+    variant = variant or {}
     if style == "dotted":
         for m in nmembers:
             if m[0] == "leaf":
@@ -257,16 +360,34 @@ def build(style, gk, members, nmembers, cls_full=False, history=None):
             else:
                 add_each(p, gk + "." + m[1] + ".", m[2])
     elif style == "dcls":
-        cls, subs = mk_dataclass(members)
-        if has_overrides(members):
-            p.add_argument("--" + gk, type=cls, default=override_instance(cls, subs, members))
+        params, skip, extra_names = with_extras(members, variant.get("skip"))
+        kw = {} if skip is None else {"skip": skip}
+        kind = variant.get("dcls_kind") or "dataclass"
+        if kind == "final":
+            # a @final class is dataclass-like; its default= cannot be an instance: a complete mapping
+            if has_overrides(members):
+                kw["default"] = override_dict(members, True)
+            p.add_argument("--" + gk, type=mk_final(params), **kw)
         else:
-            p.add_argument("--" + gk, type=cls)
+            cls, subs = {"dataclass": mk_dataclass, "attrs": mk_attrs, "pydantic": mk_pydantic}[kind](params)
+            if has_overrides(members):
+                kw["default"] = override_instance(cls, subs, params, extra_names)
+            p.add_argument("--" + gk, type=cls, **kw)
     elif style == "cls":
+        params, skip, extra_names = with_extras(members, variant.get("skip"))
+        kw = {} if skip is None else {"skip": skip}
         if has_overrides(members):
-            p.add_class_arguments(mk_class(members), gk, default=override_dict(members, cls_full))
-        else:
-            p.add_class_arguments(mk_class(members), gk)
+            # with skip={names} the mapping may also name the skipped parameters (they are filtered out)
+            named = params if (cls_full and skip is not None and variant["skip"]["mode"] == "names") else members
+            d = override_dict(named, cls_full)
+            kw["default"] = to_ns(d) if variant.get("cls_default") == "ns" else d
+        klass = mk_class(params)
+        # (a lazy instance must satisfy the signature: not used when a skipped extra parameter has no default)
+        if has_overrides(members) and variant.get("cls_default") == "lazy" \
+                and not any(m[1] in extra_names and m[3] is MISSING for m in params if m[0] == "leaf"):
+            from jsonargparse import lazy_instance
+            kw["default"] = lazy_instance(klass, **d)     # default=<lazy instance>: its init args are the mapping
+        p.add_class_arguments(klass, gk, **kw)
     elif style == "inner":
         kw = {"default_env": True, "env_prefix": "COMPONENT"} if history else {}
         ip = ArgumentParser(exit_on_error=False, **kw)
@@ -430,10 +551,11 @@ def main():
         nfields = members_of(case["nmembers"])
         full = bool(case.get("cls_full"))
         history = case.get("inner_history")
+        variant = case.get("variant")
         res = {"tables": {}, "runs": []}
         for st in STYLES:
             try:
-                res["tables"][st] = table(build(st, case["gk"], fields, nfields, full, history))
+                res["tables"][st] = table(build(st, case["gk"], fields, nfields, full, history, variant))
             except BaseException as e:  # noqa
                 res["tables"][st] = {"error": type(e).__name__ + ": " + str(e)[:200]}
         for inp in case["inputs"]:
@@ -445,7 +567,7 @@ def main():
                 os.environ.update(saved)
                 os.environ.update(inp["env"])
                 try:
-                    p = build(st, case["gk"], fields, nfields, full, history)
+                    p = build(st, case["gk"], fields, nfields, full, history, variant)
                 except BaseException as e:  # noqa
                     r["styles"][st] = {"out": "other:build:" + type(e).__name__, "dump": None}
                     continue
